@@ -193,6 +193,31 @@ def worker_family() -> List[List[list]]:
     return res
 
 
+def callback_family() -> List[List[list]]:
+    """controller writes to characteristics whose setter_callback echoes the value, sets a different
+    value, or sets another characteristic; writer subscribed or not; a second subscriber; the write
+    changes the value or repeats it; immediate type too"""
+    res = []
+    for x, y in ((0, 1), (1, 0), (3, 0), (0, 3)):
+        for cb in (["echo"], ["set_to", vfor(x, 7)], ["set_to", vfor(x, 50)], ["set_other", y, vfor(y, 9)]):
+            for writer_sub in (True, False):
+                for other_sub in (True, False):
+                    for repeat in (False, True):
+                        for d in (0, 4, 10):
+                            ops = [["advance", 1], ["cb", x] + cb, ["connect", 0], ["verify", 0], ["connect", 1], ["verify", 1]]
+                            if writer_sub:
+                                ops += [["put", 0, x, True, None, False], ["put", 0, y, True, None, False]]
+                            if other_sub:
+                                ops += [["put", 1, x, True, None, False], ["put", 1, y, True, None, False]]
+                            ops.append(["app_set", x, vfor(x, 50)])
+                            if d:
+                                ops.append(["advance", d])
+                            ops.append(["put", 0, x, None, vfor(x, 50) if repeat else vfor(x, 60), False])
+                            ops += [["ready"], ["advance", 16], ["put", 1, x, None, vfor(x, 61), False], ["advance", 16], ["get", 0, x]]
+                            res.append(ops)
+    return res
+
+
 def random_script(rng: random.Random, max_ops: int = 30, flavour: str = "c12") -> List[list]:
     b = Book()
     ops: List[list] = [["advance", 1]]
@@ -201,6 +226,18 @@ def random_script(rng: random.Random, max_ops: int = 30, flavour: str = "c12") -
     if flavour == "c12" and rng.random() < 0.7 and not any(x in IMM for x in xs):
         xs[-1] = rng.choice(IMM)
     n = rng.randrange(6, max_ops + 1)
+    if rng.random() < 0.35:
+        # setter callbacks on some (never always-null) characteristics
+        for x in [x for x in xs if x not in NUL][: rng.choice([1, 1, 2])]:
+            kind = rng.choice(["echo", "echo", "set_to", "set_other"])
+            if kind == "echo":
+                ops.append(["cb", x, "echo"])
+            elif kind == "set_to":
+                ops.append(["cb", x, "set_to", vfor(x, rng.choice([7, 20, 50]))])
+            else:
+                y = rng.choice([y for y in (0, 1, 3) if y != x])
+                ops.append(["cb", x, "set_other", y, vfor(y, rng.choice([9, 20]))])
+        n += 2
 
     def connect(a):
         ops.append(["connect", a])
